@@ -115,7 +115,7 @@ def s2(ctx):
     imps = [i for i in crate.impls if i.get("self_adt") == "rewrite::ProgressMeasure" and i.get("trait") == "std::cmp::PartialEq"]
     ctx.check(len(imps) == 1 and imps[0]["auto_derived"], "derived-partial-eq", "PartialEq for ProgressMeasure is #[derive]d (compares every field)",
               "PartialEq for ProgressMeasure is hand-written (%d impls): a field may be left out of the saturation test" % len(imps))
-    adt = crate.adts.get("rewrite::ProgressMeasure")
+    adt = crate.adt_named("rewrite::ProgressMeasure")
     fs = [f["name"] for f in adt["variants"][0]["fields"]] if adt else []
     ctx.check(sorted(fs) == sorted(["number_of_classes", "number_of_live_classes", "sum_of_slots", "sum_of_symmetries"]), "four-fields", "the measure has the four documented fields", "the measure's fields are %s" % fs)
     c13.t3(ctx)
